@@ -5,7 +5,7 @@
    outside the record (no hidden field that a snapshot of States would miss, no cache, no global) is what the
    correspondence run checks on multi-Step histories and what the twin-CPU harness checks at every boundary.
    NOT expressible here: goroutine interleavings and the race detector (harness, thorough tier). *)
-From Z80V Require Import Proofs.SpecFacts Proofs.RunProofs.
+From Z80V Require Import Proofs.SpecFacts Proofs.RunProofs Proofs.Iter.
 
 Theorem C10_tie : forall cpu, WF cpu -> Step cpu = spec_step impl_unspec cpu.
 Proof. exact Step_ok. Qed.
@@ -21,3 +21,22 @@ Theorem C10_fetch_ignores_halt_and_breakpoints : forall cpu h b,
   snd (fetch_m1 (s_BreakPoints (s_HALT cpu h) b)) = snd (fetch_m1 cpu).
 Proof. intros. split; reflexivity. Qed.
 Print Assumptions C10_fetch_ignores_halt_and_breakpoints.
+
+(* well-formedness is an invariant of Step, so the tie extends to any number of Steps *)
+Theorem C10_steps_are_spec_steps : forall n cpu, WF cpu -> iter n cpu = spec_iter impl_unspec n cpu /\ WF (iter n cpu).
+Proof. intros n cpu H. split; [apply iter_ok, H | apply iter_WF, H]. Qed.
+Print Assumptions C10_steps_are_spec_steps.
+(* "captured by States + memory": the fields of the CPU record that are not machine state -- the halted indication and
+   the break points -- never influence what any number of Steps compute: erasing them first changes nothing else *)
+Theorem C10_hidden_fields_never_matter : forall n cpu, WF cpu -> erase (iter n (erase cpu)) = erase (iter n cpu).
+Proof. exact iter_erase. Qed.
+Print Assumptions C10_hidden_fields_never_matter.
+Theorem C10_step_ignores_halt_and_breakpoints : forall u cpu, erase (spec_step u (erase cpu)) = erase (spec_step u cpu).
+Proof. exact spec_step_erase. Qed.
+Print Assumptions C10_step_ignores_halt_and_breakpoints.
+(* the memory object, the IO object and the handlers are never replaced by an instruction *)
+Theorem C10_environment_is_kept : forall u m i cpu, let cpu' := exec u m i cpu in
+  g_Interrupt cpu' = g_Interrupt cpu /\ g_Memory cpu' = g_Memory cpu /\ g_IO cpu' = g_IO cpu /\
+  g_RETIHandler cpu' = g_RETIHandler cpu /\ g_RETNHandler cpu' = g_RETNHandler cpu /\ g_BreakPoints cpu' = g_BreakPoints cpu.
+Proof. exact exec_keeps_env. Qed.
+Print Assumptions C10_environment_is_kept.
